@@ -129,6 +129,7 @@ def progStep (st : ProgState) (ts : List String) : ProgState × List String :=
   | ["threads", _, _] => (st, [])
   | ["prehost", _] => (st, [])
   | ["direct", _] => (st, [])
+  | ["nestedtracing", _] => ({ st with oracleOnly := true }, [])   -- values whose Debug impl uses tracing: judged by the harness oracles only
   | "p" :: rest =>
     match pPOp rest with
     | some (op, []) => ({ st with ops := op :: st.ops }, [])
